@@ -1,7 +1,9 @@
 //! C10 — audit stream + state replica. Steps the real engine with `process_with_audit`, feeds every
 //! `AuditTick` to a real `StateReplicaManager`, compares engine and replica after every record;
 //! `runall sync|async` replays the whole history through `sync_run_with_audit` /
-//! `async_run_with_audit` over a real channel and a real `StateReplicaManager::run`.
+//! `async_run_with_audit` over a real channel and a real `StateReplicaManager::run`, optionally through a
+//! faulty transport (`runall <runner> <drop|dup|late|swap>:<pos>`); `rep_dup` / `rep_gap` / `rep_old k` /
+//! `rep_at s` deliver single records outside the engine's own order (syntax: `Driver/C10.lean`).
 use barter::{
     engine::{
         audit::{AuditTick, Auditor, EngineAudit, state_replica::StateReplicaManager},
@@ -54,6 +56,8 @@ fn run() {
         let mut replica: Option<Replica> = None;
         let mut algo: Option<Algo> = None;
         let mut last_tick: Option<Tick> = None;
+        // every record the engine produced in this case, oldest first (`rep_old`)
+        let mut all_ticks: Vec<Tick> = vec![];
         // history for `runall`: the events as built, with their strategy output
         let mut history: Vec<(Event, Option<Algo>)> = vec![];
         for op in case.ops.iter() {
@@ -69,6 +73,7 @@ fn run() {
                     world = Some(w);
                     algo = None;
                     history.clear();
+                    all_ticks.clear();
                 }
                 "algo" => {
                     let w = world.as_ref().expect("init first");
@@ -105,6 +110,7 @@ fn run() {
                     lines.push(format!("rec_out {}", tick_outputs(&tick)));
                     let rep = replica.as_mut().unwrap();
                     let res = feed_replica(rep, tick.clone());
+                    all_ticks.push(tick.clone());
                     last_tick = Some(tick);
                     lines.push(format!("rep_step {res}"));
                     lines.push(format!("rep_seq {}", rep.state_replica.context.sequence.value()));
@@ -129,6 +135,36 @@ fn run() {
                     if op[0] == "rep_gap" {
                         // a record two ahead of the last applied one: the one in between is missing
                         tick.context.sequence = barter::Sequence(rep.state_replica.context.sequence.value() + 2);
+                    }
+                    let res = feed_replica(rep, tick);
+                    lines.push(format!("rep_step {res}"));
+                    lines.push(format!("rep_seq {}", rep.state_replica.context.sequence.value()));
+                    observe_any(w, rep.replica_engine_state(), "rep_", lines);
+                }
+                "rep_old" | "rep_at" => {
+                    // `rep_old k`: the record produced k events before the last one, re-delivered unchanged
+                    // (a record repeated LATER: must be skipped); `rep_at s`: the last record stamped with
+                    // the absolute sequence s (0 = the snapshot's own number, far ahead, ...). A record that
+                    // would be the valid successor (s = replica + 1) is a forged stream, not a faulty one:
+                    // rejected as `bad-op` here and by the drivers.
+                    let w = world.as_ref().expect("init first");
+                    let rep = replica.as_mut().unwrap();
+                    let arg: u64 = op[1].parse().expect("number");
+                    let tick = if op[0] == "rep_old" {
+                        all_ticks.len().checked_sub(1 + arg as usize).map(|i| all_ticks[i].clone())
+                    } else {
+                        last_tick.clone().map(|mut t| {
+                            t.context.sequence = barter::Sequence(arg);
+                            t
+                        })
+                    };
+                    let Some(tick) = tick else {
+                        lines.push("no-tick".into());
+                        continue;
+                    };
+                    if tick.context.sequence.value() == rep.state_replica.context.sequence.value() + 1 {
+                        lines.push("bad-op".into());
+                        continue;
                     }
                     let res = feed_replica(rep, tick);
                     lines.push(format!("rep_step {res}"));
@@ -186,15 +222,21 @@ fn run() {
                     for t in ticks.iter() {
                         lines.push(format!("run_ev {}", tick_digest(&w, t)));
                     }
+                    // optional fault between channel and replica: `drop|dup|late|swap:<first|mid|last|index>`
+                    let fault = op.get(2).map(|m| mutate_stream(m, &mut ticks));
                     let mut rep: Replica = StateReplicaManager::new(snapshot, ticks.into_iter());
                     let res = rep.run();
                     lines.push(format!("run_rep {}", if res.is_ok() { "ok" } else { "err" }));
                     observe_any(&w, &w.built.engine.state, "run_", lines);
                     observe_any(&w, rep.replica_engine_state(), "run_rep_", lines);
-                    lines.push(format!(
-                        "run_rep_rest_eq {}",
-                        if states_equal_but_orders(&w.built.engine.state, rep.replica_engine_state()) { 1 } else { 0 }
-                    ));
+                    // a replica that lost a record stops at a prefix of the run: the components outside the
+                    // model (balances, connectivity, ...) are compared only when every record could be applied
+                    if !matches!(fault, Some(Fault::Loses)) {
+                        lines.push(format!(
+                            "run_rep_rest_eq {}",
+                            if states_equal_but_orders(&w.built.engine.state, rep.replica_engine_state()) { 1 } else { 0 }
+                        ));
+                    }
                     // the order clause on the two REAL final states of the run (as `rep_sync`; when the
                     // replica stopped with an error its state is the one it had reached)
                     lines.push(format!("run_rep_sync {}", orders_in_sync(lines, "run_ord", "run_rep_ord") as u8));
@@ -203,6 +245,55 @@ fn run() {
             }
         }
     });
+}
+
+enum Fault {
+    /// records only repeated: every one of them must be skipped
+    Repeats,
+    /// a record removed or delivered out of order
+    Loses,
+}
+
+/// `runall <runner> <kind>:<pos>`: a fault of the transport between the audit channel and the replica.
+/// `pos` = `first` | `mid` (= len / 2) | `last` | an index (clamped to the last record);
+/// `drop` removes the record, `dup` repeats it immediately, `late` repeats it just before the final
+/// record, `swap` exchanges it with its successor (nothing when it is the last one).
+fn mutate_stream(m: &str, ticks: &mut Vec<Tick>) -> Fault {
+    let (kind, pos) = m.split_once(':').expect("fault kind:pos");
+    let n = ticks.len();
+    let j = match pos {
+        "first" => 0,
+        "mid" => n / 2,
+        "last" => n.saturating_sub(1),
+        k => k.parse::<usize>().expect("index").min(n.saturating_sub(1)),
+    };
+    match kind {
+        "drop" => {
+            if j < n {
+                ticks.remove(j);
+            }
+            Fault::Loses
+        }
+        "dup" => {
+            if j < n {
+                ticks.insert(j, ticks[j].clone());
+            }
+            Fault::Repeats
+        }
+        "late" => {
+            if j < n {
+                ticks.insert(n - 1, ticks[j].clone());
+            }
+            Fault::Repeats
+        }
+        "swap" => {
+            if j + 1 < n {
+                ticks.swap(j, j + 1);
+            }
+            Fault::Loses
+        }
+        other => panic!("bad fault {other}"),
+    }
 }
 
 /// `rec_ev` / `run_ev`: digest of the event an audit record carries
@@ -371,12 +462,280 @@ fn gen_case(rng: &mut Rng, out: &mut Out, tier: &str) {
     }
 }
 
+// ------------------------------------------------ input-domain families (separately seeded)
+
+const FAULTS: [&str; 10] = [
+    "drop:first", "drop:mid", "drop:last", "dup:first", "dup:mid", "dup:last", "late:first", "late:mid", "swap:first",
+    "swap:mid",
+];
+
+fn gen_wide_filter(rng: &mut Rng, nex: usize, nins: usize) -> String {
+    match rng.below(12) {
+        0..=2 => "none".into(),
+        3 => format!("ex:{}", rng.below(nex as u64)),
+        4 => format!("ex:{},{}", rng.below(nex as u64), rng.below(nex as u64)),
+        // an exchange / instrument the engine does not have: a filter that matches nothing
+        5 => format!("ex:{}", nex + rng.below(2) as usize),
+        6 => format!("ins:{}", rng.below(nins as u64)),
+        7 => format!("ins:{},{}", rng.below(nins as u64), rng.below(nins as u64)),
+        8 => format!("ins:{}", nins + rng.below(3) as usize),
+        9 => format!("und:{}-3", rng.below(3)),
+        10 => format!("und:{}-3,{}-3", rng.below(3), rng.below(3)),
+        _ => format!("und:{}-{}", rng.below(3), 4 + rng.below(2)),
+    }
+}
+
+/// the wide family: everything the engine protocol can express and `gen_case` never draws - three
+/// exchanges, the first instrument on a non-first exchange, requests on both sides with varied price /
+/// quantity (fractions), for another / an unknown exchange, with an order id, refused by the risk manager
+/// (cid >= 5000), commands with 0-3 requests, order snapshots with varied quantity / price, the in-flight
+/// echo `F`, reports for orders the engine never heard of, `und:` and non-matching filters, fractional /
+/// tiny / huge fills and prices, the replica ops `rep_old` / `rep_at` (also back to back), and runs through
+/// a faulty transport. `long` = a run of some hundred events without a terminal one before the end.
+fn gen_wide(rng: &mut Rng, out: &mut Out, tier: &str, long: bool) {
+    let nex = if long { rng.range(1, 3) } else { rng.range(1, 3) } as usize;
+    let links: String = (0..nex)
+        .map(|_| if long || rng.chance(75) { 'H' } else { ['C', 'M', 'U'][rng.below(3) as usize] })
+        .collect();
+    let mut defs: Vec<(usize, usize, usize)> = (0..nex).map(|e| (e, rng.below(3) as usize, 3)).collect();
+    for _ in 0..rng.below(3) {
+        defs.push((rng.below(nex as u64) as usize, rng.below(3) as usize, 3));
+    }
+    // any order of the instruments: the first one need not be on the first exchange
+    for k in (1..defs.len()).rev() {
+        let j = rng.below(k as u64 + 1) as usize;
+        defs.swap(k, j);
+    }
+    let nins = defs.len();
+    out.line(format!(
+        "init {} L {links} I {}",
+        if rng.chance(60) { "on" } else { "off" },
+        defs.iter().map(|(e, b, q)| format!("{e},{b},{q}")).collect::<Vec<_>>().join(" ")
+    ));
+    let len = if long { rng.range(150, 400) } else { rng.range(0, if tier == "thorough" { 40 } else { 22 }) };
+    let mut has_pos = vec![false; nins];
+    let mut next_cid = 10u64;
+    let mut next_refused = 5000u64;
+    let mut known: Vec<(usize, u64)> = vec![];
+    let prices = ["100", "101", "99.5", "0.01", "100000000"];
+    let qtys = ["10", "1", "0.5", "2.5", "0.00000001"];
+    let mut nev = 0u64;
+    for _ in 0..len {
+        let ex_of = |rng: &mut Rng, ins: usize| match rng.below(100) {
+            0..=84 => defs[ins].0,
+            85..=94 => rng.below(nex as u64) as usize,
+            // an exchange the engine does not have: a fatal index error (never in a `long` run)
+            _ if !long => nex + rng.below(2) as usize,
+            _ => defs[ins].0,
+        };
+        let mut created_now: Vec<(usize, u64)> = vec![];
+        let mut open_req = |rng: &mut Rng, created: &mut Vec<(usize, u64)>, refusable: bool| {
+            let ins = rng.below(nins as u64) as usize;
+            let cid = if refusable && rng.chance(20) {
+                next_refused += 1;
+                next_refused
+            } else {
+                next_cid += 1;
+                next_cid
+            };
+            created.push((ins, cid));
+            format!(
+                "o:{}:{ins}:{cid}:{}:{}:{}",
+                ex_of(rng, ins),
+                if rng.chance(50) { "B" } else { "S" },
+                rng.pick(&prices),
+                rng.pick(&qtys)
+            )
+        };
+        let cancel_req = |rng: &mut Rng, known: &Vec<(usize, u64)>, refusable: bool| {
+            let (ins, cid) = if known.is_empty() || rng.chance(15) {
+                // a cancel for an order nobody ever opened
+                (rng.below(nins as u64) as usize, if refusable && rng.chance(30) { 5900 + rng.below(3) } else { 900 + rng.below(3) })
+            } else {
+                *rng.pick(known)
+            };
+            if rng.chance(30) {
+                format!("c:{}:{ins}:{cid}:{}", ex_of(rng, ins), 1 + rng.below(3))
+            } else {
+                format!("c:{}:{ins}:{cid}", ex_of(rng, ins))
+            }
+        };
+        if rng.chance(45) {
+            let mut reqs: Vec<String> = vec![];
+            for _ in 0..rng.below(3) {
+                reqs.push(cancel_req(rng, &known, true));
+            }
+            for _ in 0..rng.below(3) {
+                reqs.push(open_req(rng, &mut created_now, true));
+            }
+            reqs.retain(|r| !r.starts_with("c:") || rng.chance(50));
+            out.line(format!("algo {}", reqs.join(" ")).trim_end().to_string());
+        }
+        let i = rng.below(nins as u64) as usize;
+        let pick_order = |rng: &mut Rng, known: &Vec<(usize, u64)>| -> (usize, u64) {
+            if known.is_empty() || rng.chance(15) {
+                // an order the engine never heard of
+                (i, 700 + rng.below(4))
+            } else if rng.chance(50) {
+                known[0]
+            } else {
+                *rng.pick(known)
+            }
+        };
+        let line = match rng.below(100) {
+            0..=9 => {
+                let reqs: Vec<String> = (0..rng.below(4)).map(|_| open_req(rng, &mut created_now, false)).collect();
+                format!("ev cmd_open {}", reqs.join(" ")).trim_end().to_string()
+            }
+            10..=17 => {
+                let reqs: Vec<String> = (0..rng.below(4)).map(|_| cancel_req(rng, &known, false)).collect();
+                format!("ev cmd_cancel {}", reqs.join(" ")).trim_end().to_string()
+            }
+            18..=27 => format!("ev trading {}", if rng.chance(50) { "on" } else { "off" }),
+            28..=47 => {
+                let (ins, cid) = pick_order(rng, &known);
+                match rng.below(20) {
+                    0 => format!("ev snap {ins} {cid} {} {} F 0 0 0", rng.pick(&qtys), rng.pick(&prices)),
+                    1..=4 => format!("ev snap {ins} {cid} {} {} X 0 0 0", rng.pick(&qtys), rng.pick(&prices)),
+                    _ => format!(
+                        "ev snap {ins} {cid} {} {} O {} {} {}",
+                        rng.pick(&qtys),
+                        rng.pick(&prices),
+                        1 + rng.below(3),
+                        rng.below(6),
+                        rng.pick(&["0", "5", "10", "0.5", "0.00000001"])
+                    ),
+                }
+            }
+            48..=57 => {
+                let (ins, cid) = pick_order(rng, &known);
+                format!("ev resp {ins} {cid} {}", if rng.chance(50) { "ok" } else { "err" })
+            }
+            58..=60 if !long => "ev shutdown".into(),
+            61..=67 => format!("ev cancel_orders {}", gen_wide_filter(rng, nex, nins)),
+            68..=73 => format!("ev close_positions {}", gen_wide_filter(rng, nex, nins)),
+            74..=83 => {
+                if has_pos[i] && rng.chance(40) {
+                    format!("ev reduce {i}")
+                } else if has_pos[i] {
+                    has_pos[i] = false;
+                    format!("ev flat {i}")
+                } else {
+                    has_pos[i] = true;
+                    format!(
+                        "ev fill {i} {} {}",
+                        if rng.chance(50) { "B" } else { "S" },
+                        rng.pick(&["1", "2", "3", "0.5", "0.00000001", "1000000"])
+                    )
+                }
+            }
+            84..=92 => format!("ev other {} {}", rng.pick(&["mktre", "accre", "bal"]), rng.below(nex as u64)),
+            _ => format!("ev price {i} {}", rng.pick(&["100", "101", "104", "99.5", "0.25", "1000000"])),
+        };
+        out.line(line);
+        nev += 1;
+        known.append(&mut created_now);
+        // faults of the record transport, one or two in a row
+        let mut k = if rng.chance(if long { 4 } else { 14 }) { 1 + rng.below(2) } else { 0 };
+        while k > 0 {
+            k -= 1;
+            out.line(match rng.below(8) {
+                0 => "rep_dup".to_string(),
+                1 => "rep_gap".to_string(),
+                2..=4 => format!("rep_old {}", rng.below(nev + 1)),
+                5 => "rep_at 0".to_string(),
+                6 => format!("rep_at {}", rng.below(nev + 1)),
+                _ => format!("rep_at {}", rng.pick(&[nev + 3, nev + 100, 1 << 32, u64::MAX])),
+            });
+        }
+    }
+    if long {
+        out.line("ev shutdown");
+        out.line(format!("runall sync {}", rng.pick(&FAULTS)));
+        out.line("runall async");
+        return;
+    }
+    for _ in 0..rng.below(3) {
+        let runner = if rng.chance(50) { "sync" } else { "async" };
+        if rng.chance(60) {
+            out.line(format!("runall {runner} {}", rng.pick(&FAULTS)));
+        } else {
+            out.line(format!("runall {runner}"));
+        }
+    }
+}
+
+/// directed cases: each runner x each way a run ends (feed ended, shutdown, fatal error) x the terminal
+/// event first / in the middle / last, every run once clean and once through each transport fault; and the
+/// empty run (snapshot, then the feed ends at once)
+fn gen_directed(out: &mut Out) {
+    let mut id = 0;
+    for ending in ["feed", "shutdown", "fatal"] {
+        for at in [0usize, 2, 4] {
+            if ending == "feed" && at != 0 {
+                continue;
+            }
+            id += 1;
+            out.case(format!("d{id}_{ending}_{at}"));
+            // exchange 1 is closed: any request for it ends the run with a fatal error
+            out.line("init on L HC I 0,0,3 1,1,3");
+            let body = ["ev price 0 101", "ev cmd_open o:0:0:11:B:100:10", "ev snap 0 11 10 100 O 1 1 0", "ev fill 0 B 2", "ev other bal 0"];
+            for (k, b) in body.iter().enumerate() {
+                if k == at {
+                    match ending {
+                        "shutdown" => out.line("ev shutdown"),
+                        "fatal" => out.line("ev cmd_open o:1:1:12:S:100:1"),
+                        _ => {}
+                    }
+                }
+                out.line(b);
+                if k == 2 {
+                    out.line("rep_old 1");
+                    out.line("rep_at 0");
+                    out.line("rep_dup");
+                    out.line("rep_gap");
+                }
+            }
+            for runner in ["sync", "async"] {
+                out.line(format!("runall {runner}"));
+                for f in FAULTS {
+                    out.line(format!("runall {runner} {f}"));
+                }
+            }
+        }
+    }
+    for (k, init) in ["init on L H I 0,0,3", "init off L C I 0,1,3", "init on L HM I 0,0,3 1,1,3"].iter().enumerate() {
+        out.case(format!("d_empty{k}"));
+        out.line(init);
+        out.line("rep_dup");
+        out.line("rep_old 0");
+        out.line("rep_at 0");
+        for runner in ["sync", "async"] {
+            out.line(format!("runall {runner}"));
+            out.line(format!("runall {runner} drop:first"));
+            out.line(format!("runall {runner} dup:last"));
+        }
+    }
+}
+
 fn generate(seed: u64, n_cases: usize, tier: &str) {
     let mut out = Out::new();
     let mut rng = Rng::new(seed);
     for id in 0..n_cases {
         out.case(format!("r{id}"));
         gen_case(&mut rng, &mut out, tier);
+    }
+    // input-domain families, seeded apart so that the random cases above stay what they were
+    gen_directed(&mut out);
+    let mut wrng = Rng::new(seed ^ 0x10D0_4A1D);
+    for id in 0..n_cases / 2 {
+        out.case(format!("w{id}"));
+        gen_wide(&mut wrng, &mut out, tier, false);
+    }
+    let mut lrng = Rng::new(seed ^ 0x10D0_1046);
+    for id in 0..(if tier == "thorough" { 12 } else { 2 }) {
+        out.case(format!("l{id}"));
+        gen_wide(&mut lrng, &mut out, tier, true);
     }
     out.flush();
 }
